@@ -1,8 +1,13 @@
-"""C01 -- struct/union layout equals the C compiler's (b_complete_struct_or_union_lock_held and its helpers)."""
+"""C01 -- struct/union layout equals the C compiler's (b_complete_struct_or_union_lock_held and its helpers, and the
+Python path that carries packed= / pack= to it)."""
+import ast
 import os
 
-from vf import driver
+import z3
+
+from vf import driver, cfront, smt
 from contracts.c import allc
+from contracts.py import packing
 from specs import layout as L
 
 PID = 'C01'
@@ -17,9 +22,63 @@ def concretise(ob, model):
     return BATTERY
 
 
+def flow_obligations(rep, tu):
+    """Parser._get_struct_union_enum_type stores the packing option of the current cdef() on EVERY struct/union whose
+    fields it has just collected -- named, nested or anonymous: the statement  tp.packed = self._options.get('packed')
+    is a direct statement of the function body (not under any `if`/loop/try), placed after the assignment of the field
+    lists and before the function's final return, with no `return` in between; nothing else in the function assigns a
+    `.packed` attribute.  (An AST obligation: it asks for unconditional execution, not for a particular text.)"""
+    path = os.path.join(cfront.REPO, 'src/cffi/cparser.py')
+    tree = ast.parse(open(path).read())
+    fn = None
+    for node in ast.walk(tree):
+        if isinstance(node, ast.ClassDef) and node.name == 'Parser':
+            for b in node.body:
+                if isinstance(b, ast.FunctionDef) and b.name == '_get_struct_union_enum_type':
+                    fn = b
+    name = 'cparser.py:Parser._get_struct_union_enum_type:flow'
+    if fn is None:
+        rep.errors.append("Parser._get_struct_union_enum_type not found (renamed or removed?)")
+        return [], []
+
+    def is_attr_store(st, attr):
+        return isinstance(st, ast.Assign) and any(isinstance(t, ast.Attribute) and t.attr == attr for t in st.targets)
+
+    def is_option_read(e):
+        return (isinstance(e, ast.Call) and isinstance(e.func, ast.Attribute) and e.func.attr == 'get'
+                and isinstance(e.func.value, ast.Attribute) and e.func.value.attr == '_options'
+                and len(e.args) >= 1 and isinstance(e.args[0], ast.Constant) and e.args[0].value == 'packed'
+                and (len(e.args) == 1 or (isinstance(e.args[1], ast.Constant) and not e.args[1].value)))
+    body = fn.body
+    i_fld = [k for k, st in enumerate(body) if is_attr_store(st, 'fldnames')]
+    i_pk = [k for k, st in enumerate(body) if is_attr_store(st, 'packed')]
+    all_pk = [n for n in ast.walk(fn) if is_attr_store(n, 'packed')]
+    unconditional = bool(i_fld) and len(i_pk) == 1 and len(all_pk) == 1 and i_pk[0] > i_fld[-1] and \
+        is_option_read(body[i_pk[0]].value) and \
+        not any(isinstance(n, ast.Return) for st in body[i_fld[-1]:i_pk[0]] for n in ast.walk(st)) and \
+        any(isinstance(st, ast.Return) for st in body[i_pk[0]:])
+    same_obj = bool(i_fld) and bool(i_pk) and ast.dump(body[i_fld[-1]].targets[0].value) == ast.dump(body[i_pk[0]].targets[0].value)
+    rep.functions.append({'name': 'Parser._get_struct_union_enum_type', 'file': 'src/cffi/cparser.py',
+                          'lines': [fn.lineno, fn.end_lineno], 'obligations': 2, 'kind': 'AST flow obligation'})
+    return [smt.Ob(name + "[the packing option is stored unconditionally on every struct/union whose fields were collected]",
+                   [], z3.BoolVal(unconditional), kind='flow', fn='_get_struct_union_enum_type'),
+            smt.Ob(name + "[it is stored on the same object that received the field lists]", [], z3.BoolVal(same_obj),
+                   kind='flow', fn='_get_struct_union_enum_type')], []
+
+
+def lemmas():
+    return L.lemmas() + packing.pow2_lemma()
+
+
 def main(tier, seed):
     return driver.run_property(
-        PID, tier, seed, c_part=(allc.R, FUNCS), concretise=concretise, lemmas=L.lemmas,
+        PID, tier, seed, c_part=(allc.R, FUNCS), py_items=packing.items(), concretise=concretise, lemmas=lemmas,
+        more=flow_obligations,
         layout_types=('PyObject', 'PyTypeObject', 'CTypeDescrObject', 'CFieldObject', 'PyListObject'),
-        trusted=[], technique="contract-based deductive verification: loop-body refinement of a bit-coordinate ABI "
-                              "layout step, cvc")
+        trusted=["Python side: Parser.parse and StructOrUnion.finish_backend_type are under pyvc contracts (pack is 0 or a "
+                 "power of two; flags (8,) / (0, pack) / none); `x & (x-1)` is an uninterpreted function in pyvc, its "
+                 "meaning enters through lemma pow2-test, discharged on 64-bit vectors (pack below 2^62)",
+                 "Parser._get_struct_union_enum_type is covered by an AST flow obligation only (the packing option is "
+                 "stored unconditionally on the struct/union being completed), not by symbolic execution"],
+        technique="contract-based deductive verification: loop-body refinement of a bit-coordinate ABI layout step (cvc), "
+                  "pyvc contracts and an AST flow obligation for the packing option")
